@@ -123,5 +123,5 @@ func TestVsReplayC16(t *testing.T) {
 		}
 		return
 	}
-	fmt.Println("VSREPLAY-NOT-REPRODUCED: no native oracle for obligation", m.Obligation)
+	fmt.Println("VSREPLAY-NO-SCENARIO: no native oracle for obligation", m.Obligation)
 }
